@@ -10,8 +10,8 @@ import (
 
 	"github.com/furiko-io/cronexpr"
 	metav1 "k8s.io/apimachinery/pkg/apis/meta/v1"
-	"k8s.io/apimachinery/pkg/types"
 	"k8s.io/apimachinery/pkg/runtime"
+	"k8s.io/apimachinery/pkg/types"
 	fakeclock "k8s.io/utils/clock/testing"
 
 	configv1alpha1 "github.com/furiko-io/furiko/apis/config/v1alpha1"
